@@ -47,9 +47,9 @@ type VIface struct {
 
 // VIfaces is []interface{} (variadic args).
 type VIfaces struct {
-	N          Term
-	Tag        Term // (Array Int Int)
-	B, O, L    Term // arrays
+	N       Term
+	Tag     Term // (Array Int Int)
+	B, O, L Term // arrays
 }
 type VNil struct{}
 
